@@ -617,6 +617,6 @@ func palsConstFacts(repo string) (string, error) {
 }
 
 func init() {
-	hx.Register(&hx.Prop{ID: "C15", Gen: c15Gen, Exec: c15Exec, Shrink: c15Shrink, Timeout: 120 * time.Second})
+	hx.Register(&hx.Prop{ID: "C15", Part: "pipeline", Ops: []string{"pw", "po"}, Weight: 3, Gen: c15Gen, Exec: c15Exec, Shrink: c15Shrink, Timeout: 120 * time.Second})
 	hx.RegisterFacts(hx.FactGen{File: "PalsConsts.lean", Gen: palsConstFacts})
 }
